@@ -275,7 +275,7 @@ def main() -> None:
                 _reply(run_forked(cmd))
             elif c == "shrink":
                 cands = []
-                for cand in ENGINE.shrink(cmd["scenario"]):
+                for cand in ENGINE.shrink(cmd["scenario"], cmd.get("violation")):
                     cands.append(cand)
                     if len(cands) >= cmd.get("max", 200):
                         break
